@@ -139,6 +139,20 @@ def run(ctx):
             signer, sinfo = pkts.make_signer(rng, ik, locator)
             if i < n:
                 pool[ik] = (signer, sinfo)
+        if i < n and rng.random() < 0.45:
+            # the key locator configured in wire form (what the key stores hand to their signers), of many total lengths - among
+            # them exactly 20 / 32 / 64 octets, the sizes of the usual digests
+            first = rc.comp(8, gen.rand_bytes(rng, rng.choice([11, 11, 11, 0, 1, 10, 12, 43, rng.randint(0, 50)])))
+            locator = [first, rc.comp(8, b'KEY'), rc.comp(8, b'\x01'), rc.comp(8, b'self'), rc.comp(0x36, b'\x01')]
+            if rng.random() < 0.3:
+                locator = [rc.comp(8, gen.rand_bytes(rng, rng.choice([16, 28, 60])))]       # 20 / 32 / 64 octets as a one-component name
+            sinfo = dict(sinfo, key_name=locator)
+            signer.key_locator_name = rng.choice([rc.enc_name(locator), bytearray(rc.enc_name(locator)), memoryview(rc.enc_name(locator))])
+            if i < n and pool.get(ik) and pool[ik][0] is signer:
+                pool[ik] = (signer, sinfo)
+            ctx.event('key-locator-configured-in-wire-form')
+            if len(rc.enc_name(locator)) == 32:
+                ctx.event('key-locator-wire-form-32-octets')
         _, subj = pkts.make_signer(rng, sk, key_name)
         pub = subj['pub'] if rng.random() < 0.9 else gen.rand_bytes(rng, rng.choice([0, 1, 91, 300]))
         if rng.random() < 0.25 and pub is subj['pub']:
@@ -174,6 +188,12 @@ def run(ctx):
                     dur = -dur          # years below 1000 are outside the domain (no four-digit year)
                 if dur < 0:
                     ctx.event('validity-ends-before-it-starts')
+                if rng.random() < 0.25:
+                    # instants between two seconds and lifetimes with a fractional part (what (deadline - now).total_seconds() gives):
+                    # binary fractions, so the requested end is exact; the text form names the second it falls in
+                    start = start.replace(microsecond=rng.choice([250000, 500000, 750000, 0]))
+                    dur = dur + rng.choice([0.25, 0.5, 0.75])
+                    ctx.event('validity-with-fractional-seconds')
                 aware = rng.random() < 0.3
                 st = start.replace(tzinfo=UTC) if aware else start
                 if rng.random() < 0.5:
@@ -238,5 +258,7 @@ def run(ctx):
     ctx.need_class('local-time-zone-JST-9')
     ctx.need_class('public-key-encoding-ec-compressed')
     ctx.need_event('signer-reused-with-new-locator')
+    ctx.need_event('key-locator-wire-form-32-octets')
+    ctx.need_event('validity-with-fractional-seconds')
     ctx.assumptions = ['self_sign/sign_req read the real clock (datetime.now is not patchable): their instants are checked within 5 s',
                        'non-UTC aware datetimes and years < 1000 are outside the generated domain']
